@@ -33,11 +33,12 @@ type TaskDef struct {
 }
 
 type PipeDef struct {
-	Concurrency   int                `yaml:"concurrency" json:"concurrency"`
-	QueueLimit    *int               `yaml:"queue_limit,omitempty" json:"queue_limit,omitempty"`
-	ContinueAfter bool               `yaml:"continue_running_tasks_after_failure,omitempty" json:"continue,omitempty"`
-	Env           map[string]string  `yaml:"env,omitempty" json:"env,omitempty"`
-	Tasks         map[string]TaskDef `yaml:"tasks" json:"tasks"`
+	Concurrency    int                `yaml:"concurrency" json:"concurrency"`
+	QueueLimit     *int               `yaml:"queue_limit,omitempty" json:"queue_limit,omitempty"`
+	ContinueAfter  bool               `yaml:"continue_running_tasks_after_failure,omitempty" json:"continue,omitempty"`
+	Env            map[string]string  `yaml:"env,omitempty" json:"env,omitempty"`
+	RetentionCount int                `yaml:"retention_count,omitempty" json:"retention_count,omitempty"`
+	Tasks          map[string]TaskDef `yaml:"tasks" json:"tasks"`
 }
 
 type App struct {
